@@ -418,6 +418,19 @@ class CallMixin:
         if isinstance(func, RefV):
             return self.call_ref(func, args, kwargs, module, node, env)
         if isinstance(func, Sym):
+            if func.op == "attr" and func.args[1] == "groups" and not args and not kwargs:
+                # <constant regex>.match/fullmatch/search(text).groups(): one entry per capture group of the pattern
+                mt = func.args[0]
+                if isinstance(mt, Sym) and mt.op == "call" and isinstance(mt.args[0], Sym) and mt.args[0].op == "attr" and \
+                        mt.args[0].args[1] in ("match", "fullmatch", "search") and isinstance(mt.args[0].args[0], Sym) and mt.args[0].args[0].op == "regex":
+                    import re as _re
+                    try:
+                        n = _re.compile(mt.args[0].args[0].args[0]).groups
+                    except _re.error:
+                        n = None
+                    if n is not None:
+                        call = Sym("call", func, (), ())
+                        return PyTuple([Sym("elem", call, i) for i in range(n)])
             if func.op == "calldecorated":
                 m, fn, a, kw, cls = self._deco_target
                 return self.call_decorated(m, fn, a, kw, cls)
@@ -1137,10 +1150,35 @@ class CallMixin:
                     return hit
                 d.opaque_keys.append((a[0], a[1]))
                 return a[1]
-            if name == "update" and a and isinstance(a[0], PyDict):
-                d.items.update(a[0].items)
-                d.opaque_keys.extend(a[0].opaque_keys)
+            if name == "update":
+                done = True
+                if a:
+                    src = self.resolve_alt(a[0])
+                    if isinstance(src, PyDict):
+                        d.items.update(src.items)
+                        d.opaque_keys.extend(src.opaque_keys)
+                    else:
+                        pairs = self.concrete_items(src)
+                        kvs = [self.concrete_items(pr) for pr in pairs] if pairs is not None else None
+                        if kvs is not None and all(kv is not None and len(kv) == 2 and dict_key(kv[0]) is not None for kv in kvs):
+                            for kv in kvs:
+                                d.items[dict_key(kv[0])] = kv[1]
+                        else:
+                            done = False
+                for k, v in kwargs.items():
+                    if k == "**":
+                        done = False
+                    else:
+                        d.items[("c", k)] = v
+                if not done:
+                    d.opaque_keys.append((Sym("unknown-update"), Sym("unknown-update")))
                 return NONE
+            if name == "clear":
+                d.items.clear()
+                d.opaque_keys.clear()
+                return NONE
+            if name == "popitem":
+                d.opaque_keys.append((Sym("unknown-popitem"), Sym("unknown-popitem")))
             if name == "pop" and a:
                 kk = dict_key(a[0])
                 if kk is not None and kk in d.items:
